@@ -1092,7 +1092,7 @@ class DynGraph(nx.Graph):
         for t in self.temporal_snapshots_ids():
             if self.has_node(n, t):
                 snaps.append(t)
-        return t
+        return snaps
 
     def update_node_attr_from(self, nlist, **data):
         """Updates the attributes of a specified node.
